@@ -577,6 +577,7 @@ def run(res, tier, seed, proofs_ok):
     #    that the ties call: every line of them that a tied call can reach
     #    must be executed)
     cov = start_coverage()
+    skipped_fill = set()
     cases, meta = [], []
     corpus = c05_tie.corpus_cases()
     for i in range(-len(corpus), n_tie):
@@ -597,6 +598,8 @@ def run(res, tier, seed, proofs_ok):
                  'theorem_or_correspondence': 'tie:fill'},
                 found_input=case['fault'] is None)
             continue
+        for note in runner.skipped:
+            skipped_fill.add(note)
         cases.append(c05_tie.coq_case(case, runner, outcome))
         meta.append((case, outcome))
         developed = outcome[0] == 'ok' and any(outcome[1]['results'])
@@ -779,9 +782,9 @@ def run(res, tier, seed, proofs_ok):
             {'input': {'cell_kw_case': case}, 'observed': diff,
              'theorem_or_correspondence': 'tie:cell_kw_public'},
             found_input=True)
-    if skipped_helpers:
-        res.extra['skipped_helper_ties'] = [f'skipped: {h}' for h in
-                                            sorted(skipped_helpers)]
+    if skipped_helpers or skipped_fill:
+        res.extra['skipped_helper_ties'] = [
+            f'skipped: {h}' for h in sorted(skipped_helpers | skipped_fill)]
 
     finish_coverage(res, cov)
 
